@@ -74,7 +74,7 @@ func isAbortedExecUnlocked(cs *clientState, locked *dataStore) bool {
 				return true
 			}
 		} else {
-			other := watch.ds.newDataStoreCommand()
+			other := cs.lockHandle(watch.ds)
 			other.lock()
 			changed := watch.ds.hasChangedUnlocked(watch.key, id)
 			other.unlock()
@@ -137,6 +137,8 @@ func fnExec(ctx *cmdContext, args map[string]any) (output respValue, err error) 
 	// process all of the queued commands, regardless if one errors
 	results := make([]any, 0, len(*ctx.cs.cmdQueue))
 	owned := map[*dataStore]*dataStoreCommand{ctx.dsc.ds: ctx.dsc}
+	ctx.cs.execOwned = owned
+	defer func() { ctx.cs.execOwned = nil }()
 	for _, cc := range *ctx.cs.cmdQueue {
 		// a queued SELECT takes effect when it runs: the commands after it work
 		// on the database selected then (they were prepared on the one selected
